@@ -34,3 +34,19 @@ func TestSlow(t *testing.T) {
 		}
 	})
 }
+
+func TestFails(t *testing.T) {
+	fam := os.Getenv("FAM")
+	want := os.Getenv("SIG")
+	enumerate(os.Getenv("TIER"), func(s string) {
+		if fam != "" && len(s) > len(fam) && s[:len(fam)+1] != fam+";" {
+			return
+		}
+		r := exec(s)
+		for _, f := range r.Failures {
+			if want == "" || (len(f.Sig) >= len(want) && f.Sig[:len(want)] == want) {
+				fmt.Printf("%s\n   %s\n   %s\n", s, f.Sig, f.Detail)
+			}
+		}
+	})
+}
